@@ -40,6 +40,15 @@ func c08Lists(lvl int) []string {
 			}
 		}
 	}
+	// long lists (5-8 identifiers) over {0,1,a}: fixed-size scratch arrays
+	for L := 5; L <= 8; L++ {
+		for _, s := range gen.AllStrings([]string{"0", "1"}, L) {
+			if len(s) == L {
+				out = append(out, strings.Join(strings.Split(s, ""), "."))
+			}
+		}
+		out = append(out, strings.TrimSuffix(strings.Repeat("a.", L), "."), strings.TrimSuffix(strings.Repeat("1.", L-1), ".")+".a")
+	}
 	for _, s := range gen.AllStrings(small, maxLen) {
 		if len(s) >= 3 {
 			out = append(out, strings.Join(strings.Split(s, ""), "."))
